@@ -127,7 +127,7 @@ func init() {
 			return nil
 		},
 		"verif/symx.Observe": func(fr *frame, a []value) value {
-			if fr.i.path != nil && len(fr.i.path.observed) < 32 {
+			if fr.i.path != nil && (len(fr.i.path.observed) < 32 || fr.i.collectObserved) {
 				var sb strings.Builder
 				sb.WriteString(goStr(a[0]))
 				for _, v := range a[1].([]value) {
